@@ -34,7 +34,7 @@ ASSUMPTIONS = [
     "mid-string references point at scalars, strings or lists (str(dict) contains braces, which confectioner re-resolves); whole-string references may be containers",
     "a substituted text that itself contains braces is re-resolved by the library: covered by the recorded finding template-reresolves-substituted-braces, otherwise not generated",
 ]
-FLOORS = {"values_compared": (6000, 100000), "missing_key_failures": (800, 15000), "transitive_substitutions": (1500, 30000),
+FLOORS = {"values_compared": (6000, 100000), "missing_key_failures": (800, 15000), "transitive_substitutions": (1200, 20000),
           "outcome_changing_present_paths": (4000, 80000), "outcome_changing_absent_paths": (800, 15000), "escaped_brace_cases": (300, 5000), "hostile_key_steps": (8000, 150000), "hostile_fail_then_complete": (300, 6000), "whole_parameter_cases": (14, 14)}
 SHARDS_QUICK = 4
 
